@@ -15,7 +15,8 @@ PROPERTY = 'C01'
 LEVEL = 'exploration'
 CASE_TIMEOUT = 90
 BATCH_SIZE = {'quick': 6, 'thorough': 24}
-REQUIRED_COUNTERS = ['records_checked', 'runs_completed']
+REQUIRED_COUNTERS = ['records_checked', 'runs_completed',
+                     'runs_with_slash_label_on_a_multi_child_parent']
 RULE = ('case = (taxonomy shape, marker-table class, query encoding / '
         'normalisation / size, flatten / dropped level, chunk size, worker '
         'count, runners-up); generated from a seed, quick tier biased to '
@@ -224,6 +225,11 @@ def run_case(spec, work):
     if order and order != sorted(order):
         counters['runs_with_out_of_order_completion'] = 1
     counters['workers_observed'] = len(order)
+    m = w.model
+    if any('/' in n and len(m.children(lv, n)) > 1
+           for lv in m.hierarchy[:-1] for n in m.nodes[lv]) and \
+            not spec.get('flatten'):
+        counters['runs_with_slash_label_on_a_multi_child_parent'] = 1
     feats = mapcases.features_of(spec)
     feats['dtype'] = spec.get('x_dtype', 'float64')
     feats['mode'] = spec.get('mode', 'run_mapping')
